@@ -13,6 +13,8 @@ import numpy as np
 from vmon import core
 from vmon.refmodels import timemaps
 
+ODD_METERS = [(2, 6), (5, 12), (7, 10), (3, 3), (4, 6), (5, 6)]
+
 PROP = "C02"
 RULE = ("generated single parts with 0-6 division changes and 0-6 time-signature changes (on and off barlines), pickups of "
         "every length incl. none/full, notated and musical beat mode (default and user-supplied beats per signature), plus all "
@@ -211,7 +213,10 @@ def run_item(ctx, item):
                 t = rng.randint(1, max(1, last - 1))
                 if t not in used:
                     used.add(t)
-                    part.add(S.TimeSignature(*rng.choice(gen_score.METERS)), t)
+                    # beat types that are not a power of two are rare but the statement's formula covers them: beat_type/4
+                    odd = rng.random() < 0.4
+                    part.add(S.TimeSignature(*rng.choice(ODD_METERS if odd else gen_score.METERS)), t)
+                    ctx.extra["signatures_with_a_beat_type_that_is_no_power_of_two"] += int(odd)
         d = timemaps.describe(part)
         get_all_maps(ctx, part)
         mode = "notated"
